@@ -1846,6 +1846,82 @@ Qed.
 Lemma filter_all : forall A (f : A -> bool) l, (forall x, f x = true) -> filter f l = l.
 Proof. intros A f l H. induction l as [|x l IH]; simpl; [reflexivity|]. rewrite H, IH. reflexivity. Qed.
 
+
+(* a second run at the same peer finds its own frontier state and leaves it *)
+Lemma emit_idem : forall me fr q id id' ready sd,
+    fst (fst (emit me fr q id ready)) = [pend_state sd] -> emit me (Some sd) q id' ready = ([pend_state sd], false, []).
+Proof.
+  intros me fr q id id' ready sd. unfold emit.
+  destruct fr as [[r|r cid]|]; destruct (String.eqb q me) eqn:Eq; destruct ready; try destruct (String.eqb r me) eqn:Er; cbn;
+    intros H; inversion H; subst; cbn; rewrite ?String.eqb_refl, ?Eq, ?Er; cbn; reflexivity.
+Qed.
+
+Lemma emit_nil : forall me fr q id ready,
+    fst (fst (emit me fr q id ready)) = [] -> fr = None /\ ready = false /\ forall id', emit me None q id' false = ([], false, []).
+Proof.
+  intros me fr q id ready. unfold emit.
+  destruct fr as [[r|r cid]|]; destruct (String.eqb q me) eqn:Eq; destruct ready; try destruct (String.eqb r me); cbn;
+    intros H; try discriminate H. auto.
+Qed.
+
+Lemma frontier_idem_some : forall F me K fr1 id1 id2 sd,
+    fst (fst (frontier_at F me K fr1 id1)) = [pend_state sd] ->
+    frontier_at F me K (Some sd) id2 = ([pend_state sd], None, []).
+Proof.
+  intros F me K fr1 id1 id2 sd. unfold frontier_at.
+  destruct (nth_error (o_calls F) K) as [c|]; [|destruct (o_wait F) as [q|]]; cbn [fst snd]; intros H.
+  - rewrite (emit_idem me fr1 (c_peer c) id1 id2 true sd H). reflexivity.
+  - rewrite (emit_idem me fr1 q id1 id2 false sd H). reflexivity.
+  - discriminate.
+Qed.
+
+Lemma frontier_idem_none : forall F me K fr1 id1,
+    fst (fst (frontier_at F me K fr1 id1)) = [] ->
+    (forall fr id, frontier_at F me K fr id = ([], None, [])) \/
+    (fr1 = None /\ forall id, frontier_at F me K None id = ([], None, [])).
+Proof.
+  intros F me K fr1 id1. unfold frontier_at.
+  destruct (nth_error (o_calls F) K) as [c|]; [|destruct (o_wait F) as [q|]]; cbn [fst snd]; intros H.
+  - destruct (emit_nil _ _ _ _ _ H) as (_ & X & _). discriminate.
+  - destruct (emit_nil _ _ _ _ _ H) as (-> & _ & X). right. split; [reflexivity|]. intros id. rewrite X. reflexivity.
+  - left. reflexivity.
+Qed.
+
+Lemma jts_none : forall a b sp sc, jts a b sp sc = None ->
+    (a = Nat.max a b -> sp = None) /\ (b = Nat.max a b -> sc = None).
+Proof.
+  intros a b sp sc. unfold jts. destruct (b <? a)%nat eqn:E1; [apply Nat.ltb_lt in E1|apply Nat.ltb_ge in E1].
+  - intros ->. split; [reflexivity | lia].
+  - destruct (a <? b)%nat eqn:E2; [apply Nat.ltb_lt in E2|apply Nat.ltb_ge in E2].
+    + intros ->. split; [lia | reflexivity].
+    + destruct sp; [discriminate|]. intros ->. split; reflexivity.
+Qed.
+
+Lemma jts_prev_wins : forall K b sd sc, (b <= K)%nat -> jts K b (Some sd) sc = Some sd.
+Proof.
+  intros K b sd sc H. unfold jts. destruct (b <? K)%nat; [reflexivity|].
+  destruct (K <? b)%nat eqn:E2; [apply Nat.ltb_lt in E2; lia | reflexivity].
+Qed.
+
+Lemma jts_prev_none : forall K b sc, (b < K)%nat \/ sc = None -> jts K b None sc = None.
+Proof.
+  intros K b sc H. unfold jts. destruct (b <? K)%nat eqn:E1; [reflexivity|]. apply Nat.ltb_ge in E1.
+  destruct (K <? b)%nat; destruct H as [H | ->]; try reflexivity; lia.
+Qed.
+
+Lemma filter_front : forall E n o, Forall (fun st => is_pend st = false) E ->
+    filter (fun st => negb (is_pend st)) (firstn n E ++ opt_front o) = firstn n E.
+Proof.
+  intros E n o HE.
+  assert (HF : Forall (fun st => is_pend st = false) (firstn n E)).
+  { rewrite Forall_forall in *. intros x Hx. apply HE. eapply firstn_In; eauto. }
+  rewrite filter_app.
+  assert (E1 : filter (fun st => negb (is_pend st)) (firstn n E) = firstn n E).
+  { clear - HF. induction (firstn n E) as [|x l IH]; [reflexivity|]. inversion HF; subst. simpl.
+    rewrite H1. simpl. f_equal. apply IH. assumption. }
+  rewrite E1. destruct o; cbn; rewrite app_nil_r; reflexivity.
+Qed.
+
 Section Net.
   Variable svc : string -> string -> string -> list json -> service_answer.
   Variable init : string.
@@ -2114,6 +2190,128 @@ Section Net.
     { induction ops as [|o ops IH]; intros n H; [exact H|]. cbn [fold_left]. apply IH. apply net_step_inv. exact H. }
     apply G. apply net_init_inv.
   Qed.
+
+  (* ---- the executed prefix of a host never shrinks ---- *)
+  Lemma host_run_plain_mono : forall n p cur q hq hq',
+      net_inv F n -> approx F cur -> (exlen (d_trace cur) <= length (n_log n))%nat ->
+      assoc (n_hosts n) q = Some hq -> assoc (n_hosts (hrun n p cur [] [])) q = Some hq' ->
+      (exlen (d_trace (h_prev hq)) <= exlen (d_trace (h_prev hq')))%nat.
+  Proof.
+    intros n p cur q hq hq' HI0 Hac Hcle Hq Hq'. pose proof HI0 as (Hlog & HE & Hhosts & Hfly). unfold host_run_with in Hq'.
+    destruct (assoc (n_hosts n) p) as [h|] eqn:Eh; [|rewrite Hq in Hq'; inversion Hq'; lia].
+    destruct (step_plain p h cur _ (Hhosts p h Eh) Hac Hcle HE) as (code & d & next & reqs & signed & Erun & _ & _ & _ & _ & Hmax & _).
+    rewrite Erun in Hq'. cbn [n_hosts] in Hq'.
+    destruct (String.eqb q p) eqn:Eq.
+    - apply String.eqb_eq in Eq. subst q. rewrite (assoc_put_same _ _ _ _ Eh) in Hq'. inversion Hq'; subst hq'.
+      rewrite Eh in Hq. inversion Hq; subst hq. cbn [h_prev]. lia.
+    - assert (q <> p) by (intro; subst; rewrite String.eqb_refl in Eq; discriminate).
+      rewrite assoc_put_other in Hq' by assumption. rewrite Hq in Hq'. inversion Hq'; lia.
+  Qed.
+
+  Lemma net_step_mono : forall n o q hq hq',
+      net_inv F n -> assoc (n_hosts n) q = Some hq -> assoc (n_hosts (step n o)) q = Some hq' ->
+      (exlen (d_trace (h_prev hq)) <= exlen (d_trace (h_prev hq')))%nat.
+  Proof.
+    intros n o q hq hq' HI Hq Hq'. destruct o as [| k keep | k | p ids]; cbn [net_step_with] in Hq'.
+    - eapply (host_run_plain_mono n init empty_data); eauto; [exact approx_empty | cbn; lia].
+    - destruct (nth_error (n_inflight n) k) as [[p d]|] eqn:Ek; [|rewrite Hq in Hq'; inversion Hq'; lia].
+      pose proof HI as (Hlog & HE & Hhosts & Hfly).
+      destruct (Hfly p d (or_introl (nth_error_In _ _ Ek))) as [Hap Hex].
+      match type of Hq' with assoc (n_hosts (host_run_with _ _ _ _ _ _ ?n1 _ _ _ _)) _ = _ =>
+        eapply (host_run_plain_mono n1 p d q hq hq'); eauto end.
+      unfold net_inv. cbn [n_log n_hosts n_inflight n_delivered]. split; [exact Hlog|]. split; [exact HE|]. split; [exact Hhosts|].
+      intros q' d' [Hin | Hin].
+      + apply (Hfly q' d'). left. destruct keep; [exact Hin | eapply In_remove_nth; exact Hin].
+      + apply in_app_or in Hin. destruct Hin as [Hin | [Hin | []]]; [apply (Hfly q' d'); right; exact Hin|].
+        inversion Hin; subst. split; assumption.
+    - destruct (nth_error (n_delivered n) k) as [[p d]|] eqn:Ek; [|rewrite Hq in Hq'; inversion Hq'; lia].
+      pose proof HI as (Hlog & HE & Hhosts & Hfly).
+      destruct (Hfly p d (or_intror (nth_error_In _ _ Ek))) as [Hap Hex].
+      eapply (host_run_plain_mono n p d); eauto.
+    - destruct (assoc (n_hosts n) p) as [h|] eqn:Eh; [|rewrite Hq in Hq'; inversion Hq'; lia].
+      destruct (filter (fun r => existsb (N.eqb (fst r)) ids) (h_pending h)) as [|r0 rest] eqn:Ef; [rewrite Hq in Hq'; inversion Hq'; lia|].
+      pose proof HI as (Hlog & HE & Hhosts & Hfly). pose proof (Hhosts p h Eh) as HIh.
+      assert (Hp : exists id rq, h_pending h = [(id, rq)] /\ r0 :: rest = [(id, rq)]).
+      { destruct HIh as (_ & _ & _ & Hpend & _).
+        destruct Hpend as [Hp | (id0 & rq0 & c0 & Hp & _)]; rewrite Hp in Ef; cbn in Ef; [discriminate|].
+        exists id0, rq0. split; [exact Hp|]. destruct (existsb (N.eqb id0) ids); [symmetry; exact Ef | discriminate]. }
+      destruct Hp as (id & rq & Hp & Hr). rewrite Hr in Hq'.
+      destruct (step_answer p h id rq _ HIh Hp HE) as (code & d & next & reqs & signed & Erun & _ & _ & _ & _ & Hexd & Hexp).
+      unfold host_run_with in Hq'. rewrite Eh in Hq'. cbn [map] in Hq'. rewrite Erun in Hq'. cbn [n_hosts] in Hq'.
+      destruct (String.eqb q p) eqn:Eq.
+      + apply String.eqb_eq in Eq. subst q. rewrite (assoc_put_same _ _ _ _ Eh) in Hq'. inversion Hq'; subst hq'.
+        rewrite Eh in Hq. inversion Hq; subst hq. cbn [h_prev]. lia.
+      + assert (q <> p) by (intro; subst; rewrite String.eqb_refl in Eq; discriminate).
+        rewrite assoc_put_other in Hq' by assumption. rewrite Hq in Hq'. inversion Hq'; lia.
+  Qed.
+
+  Lemma approx_filter : forall d, approx F d ->
+      filter (fun st => negb (is_pend st)) (d_trace d) = firstn (exlen (d_trace d)) (o_exec F).
+  Proof.
+    intros d [H _]. destruct (approx_trace_shape F _ F_nopend H) as (E1 & _ & _).
+    rewrite E1 at 1. apply filter_front. exact F_nopend.
+  Qed.
+
+  (* ---- re-delivery ---- *)
+  Lemma redelivery : forall p h cur E,
+      host_inv F E p h -> approx F cur -> (exlen (d_trace cur) <= E)%nat -> (E <= length (o_calls F))%nat ->
+      forall code d next reqs signed,
+        runf fuel {| ri_script := s; ri_params := nparams init ts ttl p; ri_prev := h_prev h; ri_cur := cur; ri_results := [] |}
+        = OutNewData code d next reqs signed ->
+        forall x, x = cur \/ x = d \/ x = empty_data \/ x = h_prev h ->
+        exists code' d' signed',
+          runf fuel {| ri_script := s; ri_params := nparams init ts ttl p; ri_prev := d; ri_cur := x; ri_results := [] |}
+          = OutNewData code' d' [] [] signed' /\ d_trace d' = d_trace d /\ d_lcid d' = d_lcid d.
+  Proof.
+    intros p h cur E HI Hac Hcle HE code d next reqs signed Hrun x Hx.
+    destruct (step_plain p h cur E HI Hac Hcle HE) as (code0 & d0 & next0 & reqs0 & signed0 & Erun & _ & HI1 & Hapd & Hexd & Hmax & Hspec).
+    rewrite Hrun in Erun. inversion Erun; subst code0 d0 next0 reqs0 signed0. clear Erun.
+    destruct Hspec as (Htr & _). cbn zeta in Htr. rewrite Nat.add_0_r in Htr.
+    pose proof HI as (Hap & Hle & _).
+    set (a := exlen (d_trace (h_prev h))) in *. set (b := exlen (d_trace cur)) in *.
+    set (K := Nat.max a b) in *.
+    assert (HKm : (K <= length (o_exec F))%nat) by (rewrite F_lens; unfold K; lia).
+    destruct (approx_trace_shape F _ F_nopend (proj1 Hap)) as (EP & _ & _).
+    destruct (approx_trace_shape F _ F_nopend (proj1 Hac)) as (EC & _ & _).
+    fold a in EP. fold b in EC.
+    assert (Hfr1 : joined_tail (d_trace (h_prev h)) (d_trace cur) = jts a b (tail_sender (d_trace (h_prev h))) (tail_sender (d_trace cur))) by reflexivity.
+    rewrite Hfr1 in Htr.
+    set (sp := tail_sender (d_trace (h_prev h))) in *. set (sc := tail_sender (d_trace cur)) in *.
+    set (e1 := frontier_at F p K (jts a b sp sc) (d_lcid (h_prev h) + 1)) in *.
+    destruct (frontier_front F p K (jts a b sp sc) (d_lcid (h_prev h) + 1)) as (o1 & Ho1). fold e1 in Ho1.
+    assert (Htd : tail_sender (d_trace d) = o1) by (rewrite Htr, Ho1; apply tail_front; exact HKm).
+    (* x approximates F and does not overtake d *)
+    assert (Hx' : approx F x /\ (exlen (d_trace x) <= K)%nat /\
+                  (o1 = None -> jts a b sp sc = None -> exlen (d_trace x) = K -> tail_sender (d_trace x) = None)).
+    { destruct Hx as [-> | [-> | [-> | ->]]].
+      - split; [exact Hac|]. split; [unfold K; fold b; lia|]. intros _ Hj Hk. fold b in Hk. fold sc.
+        apply (proj2 (jts_none _ _ _ _ Hj)). unfold K in Hk. lia.
+      - split; [exact Hapd|]. split; [lia|]. intros Hnn _ _. rewrite Htd. exact Hnn.
+      - split; [exact approx_empty|]. split; [cbn; lia|]. intros _ _ _. reflexivity.
+      - split; [exact Hap|]. split; [unfold K; fold a; lia|]. intros _ Hj Hk. fold a in Hk. fold sp.
+        apply (proj1 (jts_none _ _ _ _ Hj)). unfold K in Hk. lia. }
+    destruct Hx' as (Hax & Hxk & Hxt).
+    assert (Hxe : (exlen (d_trace x) <= E)%nat) by lia.
+    destruct (step_plain p _ x E HI1 Hax Hxe HE) as (code' & d' & next' & reqs' & signed' & Erun' & _ & _ & _ & _ & _ & Hspec').
+    cbn [h_prev] in Erun', Hspec'.
+    destruct Hspec' as (Htr' & Hrq' & Hnx' & Hlc' & _). cbn zeta in Htr', Hrq', Hnx', Hlc'. rewrite Nat.add_0_r in *.
+    rewrite Hmax in *. fold K in Htr', Hrq', Hnx', Hlc'.
+    replace (Nat.max K (exlen (d_trace x))) with K in * by lia.
+    assert (Hfr2 : joined_tail (d_trace d) (d_trace x) = jts K (exlen (d_trace x)) o1 (tail_sender (d_trace x))).
+    { unfold joined_tail, jts. rewrite Hmax, Htd. reflexivity. }
+    rewrite Hfr2 in *.
+    assert (He2 : frontier_at F p K (jts K (exlen (d_trace x)) o1 (tail_sender (d_trace x))) (d_lcid d + 1) = (fst (fst e1), None, [])).
+    { destruct o1 as [sd|].
+      - rewrite jts_prev_wins by exact Hxk. cbn [opt_front] in Ho1. rewrite Ho1.
+        exact (frontier_idem_some F p K _ _ _ sd Ho1).
+      - cbn [opt_front] in Ho1. rewrite Ho1.
+        destruct (frontier_idem_none F p K _ _ Ho1) as [Hall | (Hj & Hnone)]; [apply Hall|].
+        rewrite jts_prev_none; [apply Hnone|].
+        destruct (Nat.eq_dec (exlen (d_trace x)) K) as [Ek|Ek]; [right; apply Hxt; auto | left; lia]. }
+    rewrite He2 in *. cbn [fst snd] in *.
+    destruct reqs'; [|discriminate]. subst next'.
+    exists code', d', signed'. split; [exact Erun'|]. split; [rewrite Htr', Htr; reflexivity | exact Hlc'].
+  Qed.
 End Net.
 
 (* ------------------------------------------------------------------------------------------ *)
@@ -2345,3 +2543,33 @@ Proof.
   pose proof (log_is_prefix_gen svc init ts ttl run1 (run1_step svc init ts ttl) s fuel F peers ops HP) as Hlog.
   cbv zeta in Hlog. rewrite Hcs in Hlog. split; [exact Hlog|]. rewrite Hlog. apply sub_multiset_firstn.
 Qed.
+
+Section Theorems2.
+  Variable svc : string -> string -> string -> list json -> service_answer.
+  Variable init : string.
+  Variable ts ttl : N.
+  Variable runf : nat -> run_input -> RunExec.outcome.
+  Hypothesis Hstep : step_two_data_with svc init ts ttl runf.
+
+  Lemma nothing_forgotten_gen : lin_nothing_forgotten svc init ts ttl runf.
+  Proof.
+    intros s fuel F peers ops o p h h' HP n Hh Hh'. pose proof HP as (Hc & L & Hn & HF & Hlen).
+    pose proof (inv_of_premises svc init ts ttl runf Hstep s fuel F peers ops HP) as HI. fold n in HI.
+    pose proof (net_step_inv svc init ts ttl runf Hstep Hc s fuel F L Hn HF Hlen n o HI) as HI'.
+    pose proof HI as (_ & _ & Hhosts & _). pose proof HI' as (_ & _ & Hhosts' & _).
+    destruct (Hhosts p h Hh) as (Hap & _). destruct (Hhosts' p h' Hh') as (Hap' & _).
+    exists (exlen (d_trace (h_prev h))), (exlen (d_trace (h_prev h'))). split.
+    - exact (net_step_mono svc init ts ttl runf Hstep Hc s fuel F L Hn HF Hlen n o p h h' HI Hh Hh').
+    - split; symmetry; eapply approx_filter; eauto.
+  Qed.
+
+  Lemma redelivery_gen : lin_redelivery_changes_nothing svc init ts ttl runf.
+  Proof.
+    intros s fuel F peers ops p h cur HP n Hh code d next reqs signed Hac Hex Hrun x Hx.
+    pose proof HP as (Hc & L & Hn & HF & Hlen).
+    pose proof (inv_of_premises svc init ts ttl runf Hstep s fuel F peers ops HP) as HI. fold n in HI.
+    pose proof HI as (_ & HE & Hhosts & _).
+    exact (redelivery svc init ts ttl runf Hstep Hc s fuel F L Hn HF Hlen p h cur _ (Hhosts p h Hh) Hac Hex HE
+                      code d next reqs signed Hrun x Hx).
+  Qed.
+End Theorems2.
